@@ -2754,6 +2754,100 @@ example : ((Info.empty.addTablet ("ks", "v") (tb 1 5)).1.maintenanceKs [⟨"ks",
     ((Info.empty.addTablet ("ks", "v") (tb 1 5)).1.maintenanceKs [⟨"ks", true, ["t"], []⟩] [] [] []).tables
     = [(("ks", "t"), Table.empty)] := by decide
 
+/-- What one maintenance pass leaves under `(ks.name, name)`, as a function of the NAME only: kept (and maintained
+behind the gate) iff a table or a view of that name exists in the tablet-based keyspace of the schema the pass sees. -/
+private theorem maintenanceKs_get (inf : Info) (kss : List KsMeta) (hnd : (kss.map (·.name)).Nodup)
+    (rm : List Nat) (ns rc : List (Nat × Node)) (ks : KsMeta) (hks : ks ∈ kss) (name : String) :
+    alGet (ks.name, name) (inf.maintenanceKs kss rm ns rc).tables =
+      if (ks.tabletBased && (ks.tables.contains name || ks.views.contains name)) then
+        some (if !rm.isEmpty || !rc.isEmpty || inf.hasUnknown
+          then ((alGet (ks.name, name) inf.tables).getD Table.empty).maintenance rm ns rc
+          else (alGet (ks.name, name) inf.tables).getD Table.empty)
+      else none := by
+  have hnd' : ((kss.map KsMeta.entry).map (·.1)).Nodup := by
+    simpa [List.map_map, Function.comp_def, KsMeta.entry] using hnd
+  have hget : alGet ks.name (kss.map KsMeta.entry) = some (ks.tabletBased, ks.tables ++ ks.views) := by
+    clear hnd'
+    induction kss with
+    | nil => cases hks
+    | cons k kss ih =>
+      simp only [List.map_cons, List.nodup_cons] at hnd
+      rcases List.mem_cons.mp hks with rfl | hm
+      · simp [alGet, KsMeta.entry]
+      · have hne : ¬ k.name = ks.name := by
+          intro e
+          apply hnd.1
+          rw [e]
+          exact List.mem_map.mpr ⟨ks, hm, rfl⟩
+        simp only [List.map_cons, alGet, KsMeta.entry, hne, if_false]
+        exact ih hnd.2 hm
+  unfold Info.maintenanceKs
+  rw [alGet_maintenance _ _ hnd']
+  have hk : keptBy (kss.map KsMeta.entry) (ks.name, name)
+      = (ks.tabletBased && (ks.tables.contains name || ks.views.contains name)) := by
+    simp [keptBy, hget, List.contains_eq_mem, List.mem_append]
+  rw [hk]
+
+/-- **Table identity is the NAME (the limitation, made precise).** A table - or a materialized view - that is dropped
+and re-created under the same name between two refreshes is seen by both refreshes as "a table / view of that name
+exists" (`tablets.rs:617-629`; the code's own note at 605-607 concedes it for keyspaces): whatever the two schemas
+`kss₁`, `kss₂` otherwise are, and whether the name is a table in one and a view in the other, every tablet learnt for
+the OLD table survives both maintenance passes unchanged (no topology change), i.e. the new table answers with its
+predecessor's tablets. The property's "nothing rather than stale data" therefore holds only for drops a refresh
+observes (`dropped_table_seen_by_a_refresh_loses_tablets`). -/
+theorem recreated_table_keeps_tablets (inf : Info) (hu : inf.hasUnknown = false)
+    (kss₁ kss₂ : List KsMeta) (hnd₁ : (kss₁.map (·.name)).Nodup) (hnd₂ : (kss₂.map (·.name)).Nodup)
+    (ns₁ ns₂ : List (Nat × Node)) (ks₁ ks₂ : KsMeta) (h₁ : ks₁ ∈ kss₁) (h₂ : ks₂ ∈ kss₂)
+    (hname : ks₂.name = ks₁.name) (ht₁ : ks₁.tabletBased = true) (ht₂ : ks₂.tabletBased = true)
+    (name : String) (hin₁ : name ∈ ks₁.tables ∨ name ∈ ks₁.views) (hin₂ : name ∈ ks₂.tables ∨ name ∈ ks₂.views)
+    (old : Table) (hold : alGet (ks₁.name, name) inf.tables = some old) :
+    alGet (ks₁.name, name) (inf.maintenanceKs kss₁ [] ns₁ []).tables = some old ∧
+    alGet (ks₁.name, name) ((inf.maintenanceKs kss₁ [] ns₁ []).maintenanceKs kss₂ [] ns₂ []).tables = some old := by
+  have e₁ : (ks₁.tabletBased && (ks₁.tables.contains name || ks₁.views.contains name)) = true := by
+    rcases hin₁ with h | h <;> simp [ht₁, List.contains_eq_mem, h]
+  have e₂ : (ks₂.tabletBased && (ks₂.tables.contains name || ks₂.views.contains name)) = true := by
+    rcases hin₂ with h | h <;> simp [ht₂, List.contains_eq_mem, h]
+  have s₁ : alGet (ks₁.name, name) (inf.maintenanceKs kss₁ [] ns₁ []).tables = some old := by
+    rw [maintenanceKs_get inf kss₁ hnd₁ [] ns₁ [] ks₁ h₁ name, e₁, hold]
+    simp [hu]
+  refine ⟨s₁, ?_⟩
+  have hu' : (inf.maintenanceKs kss₁ [] ns₁ []).hasUnknown = false := rfl
+  rw [← hname, maintenanceKs_get _ kss₂ hnd₂ [] ns₂ [] ks₂ h₂ name, e₂, hname, s₁]
+  simp [hu']
+
+/-- **A drop that a refresh observes loses the tablets** (the positive twin): a refresh whose schema has the keyspace
+but neither a table nor a view of that name removes the entry whatever it held, and a later refresh that sees the name
+again (any topology change) starts it from the EMPTY table - nothing of the old table is ever answered again. -/
+theorem dropped_table_seen_by_a_refresh_loses_tablets (inf : Info)
+    (kss₁ kss₂ : List KsMeta) (hnd₁ : (kss₁.map (·.name)).Nodup) (hnd₂ : (kss₂.map (·.name)).Nodup)
+    (rm₁ rm₂ : List Nat) (ns₁ rc₁ ns₂ rc₂ : List (Nat × Node)) (ks₁ ks₂ : KsMeta) (h₁ : ks₁ ∈ kss₁) (h₂ : ks₂ ∈ kss₂)
+    (hname : ks₂.name = ks₁.name) (ht₂ : ks₂.tabletBased = true)
+    (name : String) (hout : name ∉ ks₁.tables ∧ name ∉ ks₁.views) (hin₂ : name ∈ ks₂.tables ∨ name ∈ ks₂.views) :
+    alGet (ks₁.name, name) (inf.maintenanceKs kss₁ rm₁ ns₁ rc₁).tables = none ∧
+    alGet (ks₁.name, name) ((inf.maintenanceKs kss₁ rm₁ ns₁ rc₁).maintenanceKs kss₂ rm₂ ns₂ rc₂).tables
+      = some Table.empty := by
+  have e₁ : (ks₁.tabletBased && (ks₁.tables.contains name || ks₁.views.contains name)) = false := by
+    simp [List.contains_eq_mem, hout.1, hout.2]
+  have e₂ : (ks₂.tabletBased && (ks₂.tables.contains name || ks₂.views.contains name)) = true := by
+    rcases hin₂ with h | h <;> simp [ht₂, List.contains_eq_mem, h]
+  have s₁ : alGet (ks₁.name, name) (inf.maintenanceKs kss₁ rm₁ ns₁ rc₁).tables = none := by
+    rw [maintenanceKs_get inf kss₁ hnd₁ rm₁ ns₁ rc₁ ks₁ h₁ name, e₁]
+    simp
+  refine ⟨s₁, ?_⟩
+  have hempty : Table.empty.maintenance rm₂ ns₂ rc₂ = Table.empty := by
+    simp [Table.maintenance, Table.empty]
+  rw [← hname, maintenanceKs_get _ kss₂ hnd₂ rm₂ ns₂ rc₂ ks₂ h₂ name, e₂, hname, s₁]
+  simp only [if_true, Option.getD_none, hempty, ite_self]
+
+-- non-vacuity: `t` dropped and re-created as a table, `v` dropped as a view and re-created as a TABLE, both unseen:
+-- the old tablets are still there; seen by a refresh (schema without the name): gone, and empty when the name returns
+example :
+    let inf := ((Info.empty.addTablet ("ks", "t") (tb 1 5)).1.addTablet ("ks", "v") (tb 7 9)).1
+    ((inf.maintenanceKs [⟨"ks", true, ["t"], ["v"]⟩] [] [] []).maintenanceKs [⟨"ks", true, ["t", "v"], []⟩] [] [] []).tables
+      = [(("ks", "t"), ⟨[tb 1 5], false⟩), (("ks", "v"), ⟨[tb 7 9], false⟩)] ∧
+    ((inf.maintenanceKs [⟨"ks", true, ["t"], []⟩] [] [] []).maintenanceKs [⟨"ks", true, ["t"], ["v"]⟩] [] [] []).tables
+      = [(("ks", "t"), ⟨[tb 1 5], false⟩), (("ks", "v"), Table.empty)] := by decide
+
 /-- **No item of a batch panics** on a well-formed tablet map when every item is a non-empty range — so the
 model's fold (which would go on after a panic) and the Rust loop (which is unwound by it) never differ on what
 `from_custom_payload` can produce. -/
